@@ -4,6 +4,7 @@ All are methods of ONE live `CphotAng` built under the guarded dtype hook (binar
 arithmetic) with the zsteps shim installed, as in harness/cphot_common.py.  Methods that work on per-step (and per-wavelength)
 arrays with elementwise arithmetic are translated per element; the scalars held by the instance that the model keeps in
 `Consts` are symbolic inputs (the bridging theorems instantiate them with the fields of `c`)."""
+import cpptrans
 import pytrans
 
 M = "nuspacesim.simulation.eas_optical.cphotang"
@@ -45,6 +46,81 @@ def specs():
         S("cherenkov_area", "cherenkovArea", sym_params={"AveCangI": "aveCangI", "DistStep": "distAtMax"},
           concrete={"izRNmax": pytrans.INDEX}, sym_attrs={"self.pi": "piC"},
           doc="`distAtMax` is `DistStep[izRNmax]`"),
+        # ---- the body of `run` between the translated head and tail (per element; reductions split, shifted views as inputs)
+        S("ozone_losses", "ozoneLosses", sym_params={"z": "z"},
+          sym_lists={"self.OzZeta": "ozZeta", "self.OzDsum": "ozDsum", "self.OzDepth": "ozDepth"},
+          doc="one altitude: total ozone above it; the three tables are inputs; `TotZonUninit` = uninitialised memory of `np.empty_like`"),
+        S("slant_depth", "zonZVal", fragment=("ZonZ_vals", "ZonZ_vals"), concrete={"alt": 0.0, "sinThetView": 0.0},
+          sym_views={"TotZons[:-1]": "totLo", "TotZons[1:]": "totHi"}, sym_locals={"delzs": "delz"},
+          sym_attrs={"self.dL": "dL"}, outputs=["ZonZ_vals"],
+          doc="ozone slant increment of one step: `totLo`/`totHi` are the ozone columns at the foot and the middle of the step "
+              "(`TotZons[:-1]`, `TotZons[1:]` with `TotZons = ozone_losses(insert(zsave, 0, alt))`)"),
+        S("aerosol_model", "aerosolModel", sym_params={"z": "z", "ThetPrpA": "thetPrpA"},
+          sym_attrs={"self.aBetaF": "aBetaF", "self.pi": "piC"},
+          sym_lists={"self.aOD55": "aOD55", "self.dfaOD55": "dfaOD55"},
+          doc="one (segment, wavelength bin) element of the aerosol transmission; `aBetaF` is the bin's entry, the two optical-depth "
+              "tables are inputs"),
+        S("photon_sum", "photonSumLimits", fragment=("sigval", "jlim"),
+          sym_params={"SPYield": "spy", "DistStep": "distStep", "thetaC": "thetaC"},
+          concrete={"e2hill": 0.0, "eCthres": 0.0, "Tfrac": 0.0, "E0": 0.0, "s": 0.0, "Eshow": 0.0},
+          sym_attrs={"self.hist_bin_size": "histBin"}, outputs=["sigval", "CradLim", "jlim"],
+          doc="`photon_sum`: the yield per histogram area (one (segment, wavelength) element) and the ring limit of one segment"),
+        S("photon_sum", "photonSumAngles", fragment=("athetaj", "sthetaj"),
+          sym_params={"DistStep": "distStep"},
+          concrete={"SPYield": 0.0, "thetaC": 0.0, "e2hill": 0.0, "eCthres": 0.0, "Tfrac": 0.0, "E0": 0.0, "s": 0.0, "Eshow": 0.0},
+          sym_locals={"jjstep": "j"}, sym_views={"jjstep[:, 1:]": "jHi"}, outputs=["athetaj", "sthetaj"],
+          doc="`photon_sum`, one (segment, ring) element: `j` is the ring radius `jjstep`, `jHi` the element of `jjstep[:, 1:]` (the next one)"),
+        S("photon_sum", "photonSumRing", fragment=("jmask", "jmask"),
+          concrete={"SPYield": 0.0, "DistStep": 0.0, "thetaC": 0.0, "e2hill": 0.0, "eCthres": 0.0, "Tfrac": 0.0, "E0": 0.0, "s": 0.0, "Eshow": 0.0},
+          sym_locals={"jjstep": "j", "jlim": "jlim"}, outputs=["jmask"],
+          doc="`photon_sum`, one (segment, ring) element: is the ring radius `j` inside the ring limit of the segment"),
+        S("photon_sum", "photonSumBins", fragment=("ehillave", "vhill"),   # through `vhill`: includes the clamp `deltrack[deltrack < 0] = 0`
+          sym_params={"eCthres": "eCthres", "Tfrac": "tfrac", "E0": "e0", "s": "s", "e2hill": "e2hill"},
+          concrete={"SPYield": 0.0, "DistStep": 0.0, "thetaC": 0.0, "Eshow": 0.0},
+          sym_locals={"ehill": "eh"},
+          sym_views={"ehill[:-1]": "ehLo", "ehill[1:]": "ehHi", "tlen[..., :-1]": "tlenLo", "tlen[..., 1:]": "tlenHi"},
+          outputs=["ehillave", "tlen", "deltrack"],
+          doc="`photon_sum`, one (segment, energy bin) element: `eh` is the node `ehill[e]` (for `tlen`), `ehLo`/`ehHi` the bin's two "
+              "nodes, `tlenLo`/`tlenHi` the track-length fraction at them"),
+        S("photon_sum", "photonSumWave", fragment=("vhill", "poweha"),
+          sym_params={"e2hill": "e2hill"},
+          concrete={"SPYield": 0.0, "DistStep": 0.0, "thetaC": 0.0, "Eshow": 0.0, "eCthres": 0.0, "Tfrac": 0.0, "E0": 0.0, "s": 0.0},
+          sym_locals={"ehillave": "ehillave"}, outputs=["vhill", "wave", "poweha"],
+          doc="`photon_sum`, one (segment, energy bin) element: Hillas' angular scale and the squared energy ratio at the bin's mean energy"),
+        S("photon_sum", "photonSumTerm", fragment=("uhill", "photsum"),
+          sym_params={}, concrete={"SPYield": 0.0, "DistStep": 0.0, "thetaC": 0.0, "e2hill": 0.0, "eCthres": 0.0, "Tfrac": 0.0,
+                                   "E0": 0.0, "s": 0.0, "Eshow": 0.0},
+          sym_locals={"athetaj": "atheta", "sthetaj": "stheta", "poweha": "poweha", "wave": "wave", "deltrack": "deltrack",
+                      "sigval": "sigval"},
+          sym_views={"ubin[..., 1:, :]": "ubHi", "ubin[..., :-1, :]": "ubLo", "jmask[..., 1:]": "ringKept"},
+          bool_inputs=("ringKept",), sym_attrs={"self.hist_bin_size": "histBin"},
+          reductions={"np.einsum": "total"}, outputs=["uhill", "ubin@1", "svtrm", "photsum"],
+          doc="`photon_sum`, one (segment, ring, energy bin[, wavelength]) element: the Hillas term `svtrm`, with `ubHi`/`ubLo` the "
+              "elements of `ubin[..., 1:, :]`/`ubin[..., :-1, :]` (the value `ubin_1` at this ring and the one before), `ringKept` the "
+              "element of `jmask[..., 1:]`; the total `einsum('zje,zw->')` is split: summand out, sum in"),
+        S("cher_ang_sig_i", "cherAngSigI",
+          sym_params={"taphotstep": "taphotstep", "taphotsum": "taphotsum", "thetaC": "thetaC", "AveCangI": "aveCangI"},
+          scalars=("taphotsum", "aveCangI"), reductions={"np.count_nonzero": "cnt", "np.sum": "sum"},
+          doc="the spread of the Cherenkov angle; both reductions over the segments are split"),
+        S("run", "runBody", fragment=("cloud_mask", "taphotsum"),
+          sym_params={}, concrete={"betaE": 0.0, "alt": 0.0, "Eshow100PeV": 0.0, "lat": 0.0, "long": 0.0, "cloudf": None},
+          sym_locals={"zs": "zs", "cloud_top_height": "cloudTop", "AirN": "airN", "s": "s", "ThetPrpA": "thetPrpA",
+                      "ThetView": "thetView", "RN": "rN", "delgram": "delgram", "ZonZ": "zonZ", "e2hill": "e2hill", "Eshow": "eshow"},
+          sym_attrs={"self.pi": "piC", "self.RadE": "radE"},
+          opaque={"np.argmax": "izRNmax", "self.sphoton_yeild": "spy", "self.photon_sum": "photsum"},
+          reductions={"np.sum": "sum"},
+          outputs=["cloud_mask", "E0", "eCthres", "thetaC", "Tfrac", "DistStep", "SPYield", "taphotstep", "taphotsum"],
+          doc="the body of `run` for one (segment[, wavelength]) element, from the cloud mask to the photon total: `spy` is the "
+              "element of `sphoton_yeild`'s result, the sums over wavelengths (`sum0`) and over segments (`sum1`) are split"),
+        S("run", "runAve", fragment=("AveCangI", "AveCangI"),
+          sym_params={}, concrete={"betaE": 0.0, "alt": 0.0, "Eshow100PeV": 0.0, "lat": 0.0, "long": 0.0, "cloudf": None},
+          sym_locals={"taphotstep": "taphotstep", "thetaC": "thetaC", "taphotsum": "taphotsum"}, scalars=("taphotsum",),
+          reductions={"np.sum": "sum"}, outputs=["AveCangI"],
+          doc="the yield-weighted mean Cherenkov angle; the sum over the segments is split"),
+        cpptrans.CppSpec("nuspacesim/simulation/eas_optical/src/zsteps.cpp", "py_zsteps", "zstepsIter",
+                         rename={"pi": "piC", "RadE": "radE"},
+                         doc="zsteps.cpp: the loop test at altitude `z` and one iteration (the step `delz` pushed to `delzs`, the "
+                             "mid-step altitude pushed to `zsave`, the next altitude)"),
         S("run", "runHead", fragment=(None, "sinThetView"),
           sym_params={"betaE": "betaE", "alt": "alt", "Eshow100PeV": "eshow100PeV"}, concrete={"lat": 0.0, "long": 0.0},
           sym_attrs=geo, outputs=["betaE", "Eshow", "ThetView", "sinThetView"],
